@@ -114,8 +114,14 @@ func render(n *Node) string {
 	case "defer-callarg":
 		// the argument of the deferred call is itself a call (or an expression) that can fail: a defer
 		// statement that fails registers nothing
-		if n.N%2 == 1 {
+		switch n.N % 4 {
+		case 1:
 			return "defer pv(" + id + ", [1, 2][5])"
+		case 2:
+			// an element that is nil: the deferred call gets nil, like any other call
+			return "na" + id + " = [nil, 2]\ndefer pv(" + id + ", na" + id + "[0])\nna" + id + "[0] = 1"
+		case 3:
+			return "defer pv(" + id + ", hostnil)"
 		}
 		return "defer pv(" + id + ", p(" + strconv.Itoa(n.Val) + "))"
 	case "defer-anon":
@@ -552,8 +558,18 @@ func (m *model) exec(n *Node, fr *frame) sig {
 	case "module", "switch":
 		return m.list(n.Body, fr)
 	case "defer-callarg":
-		if n.N%2 == 1 {
+		switch n.N % 4 {
+		case 1:
 			return sig{kind: 1, msg: anyMsg}
+		case 2, 3:
+			if n.N%4 == 2 {
+				// whether the later write to the element shows in the deferred call is general value semantics
+				// of the language (arguments alias slots): only "the call runs, once, in its turn" is judged
+				fr.defers = append(fr.defers, func() sig { return m.host("v:" + id + ":*") })
+			} else {
+				fr.defers = append(fr.defers, func() sig { return m.host("v:" + id + ":<nil>") })
+			}
+			return sig{}
 		}
 		before := m.calls
 		if s := m.host("p:" + strconv.Itoa(n.Val)); s.kind != 0 {
@@ -792,7 +808,7 @@ func (g *gen) stmt(c gctx) *Node {
 			}
 			return n
 		case k == 8 && g.r.Intn(4) == 0:
-			return &Node{K: "defer-callarg", ID: id, N: g.r.Intn(2), Val: g.id()}
+			return &Node{K: "defer-callarg", ID: id, N: g.r.Intn(4), Val: g.id()}
 		case k == 8:
 			return &Node{K: "defer-probe", ID: id}
 		case k == 9 && g.r.Intn(3) == 0:
@@ -986,6 +1002,7 @@ func (Prop) Run(t *testing.T, c *harness.Case, verbose bool) *harness.Result {
 			f(i)
 		}
 	})
+	e.Define("hostnil", nil)
 	e.Define("hce", func(n int64, f func(int64) error) int64 {
 		var failed int64
 		for i := int64(0); i < n; i++ {
